@@ -355,7 +355,7 @@ fn outgoing_strings(rng: &mut Rng, n: usize) -> Vec<String> {
     "1  btc", "1 BTC", "1.btc", "1 bits", "1 msat", "1.5 msats", "21000000 btc", "21000001 btc", "0.000000001 btc", "1\u{a0}btc", "1 btc ", " 1 btc", "1 xbtc",
     "1:A", "1 : A", "1.5:A•B", "1.5\u{a0}:\u{2003}AB.C", ".5:ZZZ", "5.:A", "1:", ":A", "1:a", "1::A", "1:A:B", "1:A B", "1 2:A", "1:.A", "1:A.", "1:A..B", "1\n:\nA", "1\t:\r\nA",
     "340282366920938463463374607431768211455:A", "340282366920938463463374607431768211456:A", "340282366920938463463374607431768211455.1:A",
-    "1:BCGDENLQRQWDSLRUGSNLBTMFIJAV", "1:BCGDENLQRQWDSLRUGSNLBTMFIJAW", "1:AAAAAAAAAAAAAAAAAAAAAAAAAAAAAAAAA.A", "١:A",
+    "1:BCGDENLQRQWDSLRUGSNLBTMFIJAV", "1:BCGDENLQRQWDSLRUGSNLBTMFIJAW", "1:AAAAAAAAAAAAAAAAAAAAAAAAAAAAAAAAA.A", "١:A", "١ btc", "1٣ sats", ".１btc", "1.٣:A", "１",
   ]
   .iter()
   .map(|s| s.to_string())
@@ -402,15 +402,9 @@ fn outgoing_strings(rng: &mut Rng, n: usize) -> Vec<String> {
         }
       }
     };
-    v.push(if i % 7 == 0 { mutate_ascii(rng, &s) } else { s });
+    v.push(if i % 7 == 0 { mutate(rng, &s) } else { s });
   }
   v
-}
-
-/// like `mutate` but never inserts a non-ASCII digit (the model treats \d as ASCII; see props/C31.json)
-fn mutate_ascii(rng: &mut Rng, s: &str) -> String {
-  let t = mutate(rng, s);
-  t.chars().map(|c| if c == '٣' || c == '１' { '7' } else { c }).collect()
 }
 
 fn number_strings(rng: &mut Rng, n: usize) -> Vec<String> {
@@ -753,7 +747,12 @@ pub fn run(case: &Line) -> Outcome {
         let r = s.parse::<Outgoing>();
         let (obs, cat, oracle) = match &r {
           Ok(Outgoing::Amount(_)) => (L::new().p(4u8).done(), "outgoing/amount-ok".to_string(), Ok(())),
-          Err(e) if format!("{e:?}").starts_with("AmountParse") => (L::new().p(4u8).done(), "outgoing/amount-err".to_string(), Ok(())),
+          // bitcoin::Amount::from_str is not modelled: Ok and Err of the amount branch are one observation.
+          // The model reads the regexes' \d as an ASCII digit; a string with a non-ASCII digit that the real
+          // AMOUNT regex lets through must then be REJECTED by Amount::from_str for model and code to agree
+          // (an Ok would show up as [4] against the model's [1]).
+          Err(e) if format!("{e:?}").starts_with("AmountParse") && s.is_ascii() => (L::new().p(4u8).done(), "outgoing/amount-err".to_string(), Ok(())),
+          Err(e) if format!("{e:?}").starts_with("AmountParse") => (L::new().p(1u8).done(), "outgoing/amount-err-non-ascii".to_string(), Ok(())),
           Ok(Outgoing::Sat(sat)) => (
             L::new().p(0u8).p(0u8).p(sat.0).done(),
             "outgoing/sat".to_string(),
